@@ -57,7 +57,8 @@ type Scenario struct {
 	ISN32     *[2]int `json:"isn32"`
 	Label     string  `json:"label"`
 	CancelUs  int64   `json:"cancel_us"`
-	Drain     bool    `json:"drain"` // after the call has returned keep the wire running until the end of the listening window
+	Drain     bool    `json:"drain"`     // after the call has returned keep the wire running until the end of the listening window
+	Realclock bool    `json:"realclock"` // run on the real clock, outside a synctest bubble (a lock held across a blocking write would freeze a virtual clock)
 	wire.Script
 	Run    *RunParams     `json:"run"`
 	Mix    []*RunParams   `json:"mix"`
@@ -118,7 +119,19 @@ func TestScenarios(t *testing.T) {
 			t.Fatalf("scenario %d: %v", n, err)
 		}
 		tw.write(s.ID, []wire.Event{{"event": "Begin", "n": 0, "t": 0, "idx": n, "twin": s.Twin}})
+		// real-time watchdog (outside any bubble): goroutines parked on a sync.Mutex whose holder waits on the virtual clock freeze a
+		// bubble for good; the process is ended with a recognisable message and the driver restarts behind this scenario
+		finished := make(chan struct{})
+		go func(id string) {
+			select {
+			case <-finished:
+			case <-time.After(150 * time.Second):
+				fmt.Printf("fatal error: harness real-time watchdog: scenario %s made no progress for 150 s of real time (virtual clock frozen?)\n", id)
+				os.Exit(3)
+			}
+		}(s.ID)
 		evs := runScenario(t, &s)
+		close(finished)
 		tw.write(s.ID, evs)
 	}
 }
@@ -250,9 +263,23 @@ func repoGoroutines() (int, string) {
 	return cnt, sample
 }
 
+// settle: let every goroutine of the scenario come to rest (bubble: exactly; real clock: a pause)
+func settle(real bool) {
+	if real {
+		time.Sleep(60 * time.Millisecond)
+		return
+	}
+	synctest.Wait()
+}
+
 func runWire(t *testing.T, s *Scenario) (evs []wire.Event) {
 	s.defaults()
-	synctest.Test(t, func(t *testing.T) {
+	bubble := synctest.Test
+	if s.Realclock {
+		bubble = func(t *testing.T, f func(*testing.T)) { f(t) }
+	}
+	s.Script.Realclock = s.Realclock
+	bubble(t, func(t *testing.T) {
 		w := wire.New(s.Script)
 		w.Install()
 		defer wire.Uninstall()
@@ -284,7 +311,7 @@ func runWire(t *testing.T, s *Scenario) (evs []wire.Event) {
 		}
 		w.LogEvent("Params", "variant", s.Variant, "entry", entryOf(s), "strict", s.Strict, "min", s.Min, "max", s.Max,
 			"timeout_us", int64(s.TimeoutMs)*1000, "delay_us", int64(s.DelayMs)*1000, "poll_us", int64(s.PollMs)*1000,
-			"target", s.Target, "port", s.Port, "cancel_us", s.CancelUs, "filter", s.Script.Filter)
+			"target", s.Target, "port", s.Port, "cancel_us", s.CancelUs, "filter", s.Script.Filter, "realclock", s.Realclock)
 		ctx, cancel := context.WithCancel(context.Background())
 		defer cancel()
 		if s.CancelUs > 0 {
@@ -333,10 +360,10 @@ func runWire(t *testing.T, s *Scenario) (evs []wire.Event) {
 		cancel()
 		// goroutines of the repository that are still alive when the call has returned and everything has settled (Stop below
 		// would abort them: count first), and those that do not even end then
-		synctest.Wait()
+		settle(s.Realclock)
 		g, sample := repoGoroutines()
 		w.Stop()
-		synctest.Wait()
+		settle(s.Realclock)
 		if g2, s2 := repoGoroutines(); g2 > g {
 			g, sample = g2, s2
 		}
